@@ -95,7 +95,7 @@ class _Shrinker:
                 break
             progress = True
         sw = self.best.get('swarm', {})
-        for key in ('fine', 'park_cb'):
+        for key in ('ultra', 'fine', 'park_cb'):
             if sw.get(key):
                 if self.first_success([(f'{key} off', self.variant(lambda s, key=key: s['swarm'].__setitem__(key, False)))]) is not None:
                     progress = True
